@@ -52,8 +52,9 @@ Record cfg := mkCfg {
   c_pad : Q;        (* Span.padding *)
   c_cin : Q; c_cout : Q;   (* Span.con_in / con_out defaults *)
   c_eol : Q;        (* Span.EOL *)
-  c_rg : string -> Q  (* per RamanFiber uid: the gain the FIRST estimate_raman_gain call returns for it (rounded to 2
-                         decimals by that call); an input, the Raman solver is not modelled *)
+  c_rg : string -> Q  (* per RamanFiber uid: the gain estimate_raman_gain returns when it is asked without a span input
+                         power (estimated at the reference power, rounded to 2 decimals, never cached: gnpy fixes
+                         36fd5b85, d3e2700d); an input, the Raman solver is not modelled *)
 }.
 Definition c_min (c : cfg) : Z := Z.max (c_padlen c) 50000.
 Definition c_target (c : cfg) : Z := Z.max (c_min c) (Z.min (c_max c) 90000).
@@ -220,7 +221,7 @@ Definition bump (e : elem) (d : Q) : elem :=
   | Fib f => Fib (mkFib (f_name f) (f_raman f) (f_len f) (f_lc f) (f_cin f) (f_cout f) (f_att f + d)%Q (f_lumped f))
   | _ => e
   end.
-(* Raman gain of the fibres of a span as the first estimate returns it *)
+(* Raman gain of the fibres of a span as an estimate without span input power returns it *)
 Definition raman_first (rg : string -> Q) (r : list elem) : Q :=
   qsum (map (fun e => match e with Fib f => if f_raman f then rg (f_name f) else 0%Q | _ => 0%Q end) r).
 (* span_loss of a span during add_fiber_padding: losses minus the estimated Raman gains (estimated at the reference
